@@ -16,6 +16,7 @@ def pintStr : PInt → String
 def errJson : PErr → Json
   | .syntax e => Json.mkObj [("error", "syntax"), ("parse", Einx.Driver.Notation.resJson (.error e))]
   | .concatNotAllowed => Json.mkObj [("error", "concatNotAllowed")]
+  | .concatBrackets => Json.mkObj [("error", "concatBrackets")]
   | .noArrow => Json.mkObj [("error", "noArrow")]
   | .inputCount a b => Json.mkObj [("error", "inputCount"), ("expected", jNat a), ("found", jNat b)]
   | .outputCount a b => Json.mkObj [("error", "outputCount"), ("expected", jNat a), ("found", jNat b)]
